@@ -275,6 +275,51 @@ theorem cons_reqRead (cms : Nat) (w : World c) (h : Cons w) : Cons (reqRead w cm
     | exact cons_setChunk _ w h
     | (apply cons_reqLoop; first | exact h | exact cons_setChunk _ w h)
 
+theorem cons_resumeGate (w : World c) (h : Cons w) : ∀ r, resumeGate w = some r → Cons r.1 := by
+  intro r hr
+  simp only [resumeGate] at hr
+  repeat' split at hr
+  all_goals first | (injection hr with hr; subst hr; exact h) | cases hr
+theorem cons_parkOrFail (w : World c) (h : Cons w) : Cons (parkOrFail w).1 := by
+  simp only [parkOrFail]; split <;> exact h
+theorem cons_parkedRead (n : Option Nat) (w : World c) (h : Cons w) : Cons (parkedRead w n).1 := by
+  simp only [parkedRead]
+  split
+  · rename_i r hr; exact cons_resumeGate w h r hr
+  · repeat' split
+    all_goals first
+      | exact h
+      | exact cons_setChunk _ w h
+      | (apply cons_parkOrFail; first | exact h | exact cons_setChunk _ w h)
+      | (apply cons_readUpTo; first | exact h | exact cons_setChunk _ w h)
+      | (apply cons_readAllChunks; first | exact h | exact cons_setChunk _ w h)
+theorem cons_lineTake (w : World c) (h : Cons w) : Cons (lineTake w) := by
+  simp only [lineTake]
+  exact cons_readChunk _ { w with outb := [] } h
+theorem cons_lineInner : ∀ fuel m (w : World c), Cons w → Cons (lineInner fuel m w).1 := by
+  intro fuel
+  induction fuel with
+  | zero => intro m w h; exact h
+  | succ f ih =>
+    intro m w h
+    simp only [lineInner]
+    have h1 := cons_lineTake w h
+    repeat' split
+    all_goals first | exact h | exact h1 | exact ih _ _ h1
+theorem cons_lineStart (w : World c) (h : Cons w) : Cons (lineStart w) := by
+  simp only [lineStart]; split <;> exact h
+theorem cons_lineFinish (r : World c × LineRes) (h : Cons r.1) : Cons (lineFinish r).1 := by
+  simp only [lineFinish]
+  repeat' split
+  all_goals first | exact h | exact cons_parkOrFail _ h
+theorem cons_parkedLine (w : World c) (h : Cons w) : Cons (parkedLine w).1 := by
+  simp only [parkedLine]
+  split
+  · rename_i r hr; exact cons_resumeGate w h r hr
+  · exact cons_lineFinish _ (cons_lineInner _ _ _ (cons_lineStart w h))
+theorem cons_connectionLostServer (w : World c) (h : Cons w) : Cons (connectionLostServer w) := by
+  simp only [connectionLostServer]; exact cons_setExc _ w h
+
 theorem cons_step (w : World c) (op : Op) (h : Cons w) : Cons (step w op).1 := by
   cases op with
   | deliver seg =>
@@ -291,6 +336,12 @@ theorem cons_step (w : World c) (op : Op) (h : Cons w) : Cons (step w op).1 := b
   | readAny => exact cons_readOp none w h
   | setChunk n => exact cons_setChunk n w h
   | reqRead cms => exact cons_reqRead cms w h
+  | pread n => exact cons_parkedRead _ w h
+  | preadAny => exact cons_parkedRead _ w h
+  | preadLine => exact cons_parkedLine w h
+  | closeServer => simp only [step]; split
+                   · exact h
+                   · exact cons_connectionLostServer w h
 
 theorem cons_run (ops : List Op) : ∀ (w : World c), Cons w → Cons (run w ops) := by
   induction ops with
